@@ -295,6 +295,24 @@ class Interp:
             return self.name_cls(e.id, stmt)
         if isinstance(e, ast.JoinedStr):
             return self.joined(e, stmt)
+        if isinstance(e, ast.Call) and isinstance(e.func, ast.Attribute) and e.func.attr == "format" and isinstance(e.func.value, ast.Name):
+            # t.format(...) where the local t is only ever bound to constant templates (chosen in an if/else)
+            from .normalize import format_to_joined
+
+            binds = [s_ for s_ in walk_no_nested(self.fn) if isinstance(s_, ast.Assign) and any(isinstance(t_, ast.Name) and t_.id == e.func.value.id for t_ in s_.targets)]
+            others = [x for x in walk_no_nested(self.fn) if isinstance(x, ast.Name) and x.id == e.func.value.id and isinstance(x.ctx, ast.Store)]
+            if binds and len(others) == len(binds) and all(isinstance(b.value, ast.Constant) and isinstance(b.value.value, str) for b in binds):
+                res = None
+                for b in binds:
+                    js = format_to_joined(b.value.value, e.args, e.keywords)
+                    if js is None:
+                        res = None
+                        break
+                    ast.copy_location(js, e)
+                    ast.fix_missing_locations(js)
+                    res = join(res, self.joined(js, stmt))
+                if res is not None:
+                    return res
         if isinstance(e, ast.Attribute):
             if isinstance(e.value, ast.Name):
                 base = e.value.id
